@@ -24,6 +24,7 @@ import (
 	"strings"
 
 	"verifharness/internal/hx"
+	"verifharness/internal/model"
 	"verifharness/internal/srv"
 )
 
@@ -49,6 +50,7 @@ type bb struct {
 	tb   *rconn      // telnet lines on sb (RESP)
 	nb   *rconn      // native framing + OUTPUT resp on sb
 	st   *state
+	drv  *model.Driver
 	seq  int
 	dead bool
 }
@@ -324,6 +326,14 @@ func (b *bb) others(args []string, jd jdoc, rv srv.Value) {
 				b.fail("transport-disagree", "native RESP reply differs from the RESP-socket reply: "+trunc(v.String(), 300)+" vs "+trunc(rv.String(), 300), args, v.String(), rv.String())
 			}
 		}
+		if hdr, payload, err := wsOneShot(b.sa.Port, args); err != nil {
+			b.wsFail("ws-frame-invalid", "websocket reply is not one well-formed frame: "+err.Error(), args, nil, nil)
+		} else {
+			if want := wsHeaderModel(b.drv, len(payload)); want != string(hdr) {
+				b.wsFail("ws-header-model", fmt.Sprintf("frame header for a %d byte payload is % x, Model.WsFrame.ws_header gives % x", len(payload), hdr, want), args, fmt.Sprintf("% x", hdr), fmt.Sprintf("% x", want))
+			}
+			cmpJSON("websocket", string(payload))
+		}
 		for _, post := range []bool{false, true} {
 			tr := "http-get"
 			if post {
@@ -392,8 +402,8 @@ func commandTable() []cmdSpec {
 	return out
 }
 
-func runBlackBox(r *hx.Result, cfg hx.Config, rng *rand.Rand) {
-	b := &bb{r: r, cfg: cfg, rng: rng}
+func runBlackBox(r *hx.Result, cfg hx.Config, rng *rand.Rand, drv *model.Driver) {
+	b := &bb{r: r, cfg: cfg, rng: rng, drv: drv}
 	var err error
 	b.sa, err = srv.Start(filepath.Join(cfg.Work, "c17-json"), "--appendonly", "yes")
 	if err != nil {
@@ -420,6 +430,7 @@ func runBlackBox(r *hx.Result, cfg hx.Config, rng *rand.Rand) {
 	states := buildStates()
 	b.st = states[0]
 	special(b)
+	b.wsSizes(drv)
 	for _, st := range states {
 		b.st = st
 		b.reset()
@@ -468,14 +479,19 @@ func runBlackBox(r *hx.Result, cfg hx.Config, rng *rand.Rand) {
 }
 
 func runC17(r *hx.Result, cfg hx.Config) {
-	r.Rule = "black box: (state, command, argument shape) triples over the whole command table (core/commands.json + undocumented dispatch entries) sent to two identical servers, one connection in OUTPUT json and one in OUTPUT resp, plus telnet / native / HTTP GET / HTTP POST repeats of read-only cases; non-trivial = distinct (state, argument list) whose JSON reply is ok:true and carries a payload or changes state. model: jsonString/appendJSONString vs extracted json_string on strings over an alphabet of quotes, backslashes, control bytes, <>&, U+2028/9, DEL, multi-byte and invalid UTF-8; valid_json vs encoding/json.Valid on replies and mutated replies."
+	r.Rule = "black box: (state, command, argument shape) triples over the whole command table (core/commands.json + undocumented dispatch entries) sent to two identical servers, one connection in OUTPUT json and one in OUTPUT resp, plus telnet / native / HTTP GET / HTTP POST / WebSocket repeats of read-only cases; non-trivial = distinct (state, argument list) whose JSON reply is ok:true and carries a payload or changes state. model: jsonString/appendJSONString vs extracted json_string on strings over an alphabet of quotes, backslashes, control bytes, <>&, U+2028/9, DEL, multi-byte and invalid UTF-8; valid_json vs encoding/json.Valid on replies and mutated replies."
 	r.Assumptions = []string{
 		"encoding/json (Valid/Unmarshal) and unicode/utf8 of the Go toolchain are the independent JSON / UTF-8 judges; the harness's own strict RESP2 reader judges RESP",
 		"two servers started from empty directories and fed the same commands hold the same state (no clocks involved except TTL/EX, compared as classes)",
 		"library-produced JSON values (geojson AppendJSON / String, encoding/json.Marshal, gjson/sjson/pretty, field.Value.JSON) are valid JSON values for finite numbers: typed HJson in the templates, checked on every black-box reply",
 	}
 	rng := rand.New(rand.NewSource(cfg.Seed))
-	runBlackBox(r, cfg, rng)
-	runModel(r, cfg, rng)
+	drv, err := model.Start("json")
+	if err != nil {
+		panic(err)
+	}
+	defer drv.Close()
+	runBlackBox(r, cfg, rng, drv)
+	runModel(r, cfg, rng, drv)
 	runTemplates(r, cfg)
 }
